@@ -207,8 +207,9 @@ def run_task(binary, flavour, task, seed, sigdir):
     while lo < task.hi and guard < 400:
         guard += 1
         sigfile = os.path.join(sigdir, "sig-%s-%s-%d-%d.txt" % (task.universe, task.mode, lo, os.getpid()))
-        cmd = [binary, "--universe", task.universe, "--mode", task.mode, "--seed", str(seed),
-               "--runs", "%d:%d" % (lo, task.hi), "--sigfile", sigfile] + task.args
+        prefix = list(binary) if isinstance(binary, (list, tuple)) else [binary]
+        cmd = prefix + ["--universe", task.universe, "--mode", task.mode, "--seed", str(seed),
+                        "--runs", "%d:%d" % (lo, task.hi), "--sigfile", sigfile] + task.args
         rc, out, err = run_proc(cmd)
         stats, viols, samples, crash, last_begin, digests, _ = parse_output(out, flavour)
         res.violations.extend(viols)
@@ -240,8 +241,8 @@ def run_task(binary, flavour, task, seed, sigdir):
                 crash = dict(kind="hang", op="?", index=-1, fired=0, fkind="")
             else:
                 crash = dict(kind="signal", op="?", index=-1, fired=0, fkind="")
-        cmd2 = [binary, "--universe", task.universe, "--mode", task.mode, "--seed", str(seed),
-                "--runs", "%d:%d" % (idx, idx + 1), "--print-hist", "1"] + task.args
+        cmd2 = prefix + ["--universe", task.universe, "--mode", task.mode, "--seed", str(seed),
+                         "--runs", "%d:%d" % (idx, idx + 1), "--print-hist", "1"] + task.args
         rc2, out2, err2 = run_proc(cmd2, timeout=120)
         _, _, _, crash2, _, _, last_ph = parse_output(out2, flavour)
         world, ops = None, []
@@ -339,7 +340,8 @@ def observe(binary, universe, world, ops, flavour, known_args=(), want=None):
         f.write("universe %s\n%s\n" % (universe, world))
         for o in ops:
             f.write(o + "\n")
-    rc, out, err = run_proc([binary, "--replay", path] + list(known_args), timeout=120)
+    prefix = list(binary) if isinstance(binary, (list, tuple)) else [binary]
+    rc, out, err = run_proc(prefix + ["--replay", path] + list(known_args), timeout=300)
     os.unlink(path)
     stats, viols, samples, crash, last_begin, _, _ = parse_output(out, flavour)
     trace = "\n".join(l for l in out.splitlines() if l.startswith("T ") or l.startswith("VIOL"))
